@@ -296,6 +296,19 @@ Theorem model_passes_clause_checker : forall t o ls,
   obs_verdict (1 + n_aux t) (wire_log t Starting acts) (ret_of acts + 100 * count is_sender_panic acts) = 0.
 Proof. exact model_passes_clause_checker_l. Qed.
 
+(* ---- a fatal component status reaches the run loop whatever its error value ------------------------------ *)
+(* Model.forwards_async (tied to the running code by Tie.fatal_forwarding_is_the_go_table): an event is
+   forwarded to the asynchronous error channel iff its status is StatusFatalError — with an error
+   value or without; and such a report by a component of the running service is queued for Run
+   (label LInjAsync (SndFatal g)), where stop_branch_enters_shutdown / ends_closed take over. *)
+Theorem fatal_status_reaches_the_run_loop :
+  (forall has_err, forwards_async 5 has_err = true) /\
+  (forall st has_err, forwards_async st has_err = true -> st = 5%Z) /\
+  (forall o s g, st_live s = Some g ->
+     st_async (fst (step o s (LInjAsync (SndFatal g)))) = st_async s ++ [SndFatal g] /\
+     stop_branch (fst (step o s (LInjAsync (SndFatal g)))) BrAsync = true).
+Proof. exact fatal_reaches_loop_l. Qed.
+
 Print Assumptions phase_order.
 Print Assumptions phase_order_in_words.
 Print Assumptions one_live_service.
@@ -329,3 +342,5 @@ Print Assumptions deadlock_history_now_closes.
 Print Assumptions orderly_shutdown.
 Print Assumptions panic_history_now_orderly.
 Print Assumptions model_passes_clause_checker.
+Print Assumptions fatal_status_reaches_the_run_loop.
+Print Assumptions Tie.fatal_forwarding_is_the_go_table.
